@@ -550,6 +550,52 @@ func hasEmptyLit(e *pexpr) bool {
 	return false
 }
 
+// concatRightHidesVariable:  l + r  where r is a composite literal that contains a variable of composite type
+// below its top level and l contains none: parseBinaryExpr looks only at r's top-level Fixed flag
+func concatRightHidesVariable(e *pexpr) bool {
+	if e == nil {
+		return false
+	}
+	if e.K == "bin" && e.Op == "+" && (e.Args[1].K == "arr" || e.Args[1].K == "map") && hasCompositeVar(e.Args[1]) && !hasCompositeVar(e.Args[0]) {
+		return true
+	}
+	for _, a := range e.Args {
+		if concatRightHidesVariable(a) {
+			return true
+		}
+	}
+	return false
+}
+
+func hasCompositeVar(e *pexpr) bool {
+	if e == nil {
+		return false
+	}
+	switch e.K {
+	case "var", "call":
+		return e.T.K == "arr" || e.T.K == "map"
+	case "loopvar":
+		rng := e.Args[0]
+		var t *sty
+		switch rng.K {
+		case "var":
+			t = rng.T
+		case "arr":
+			return len(rng.Args) > 0 && (rng.Args[0].K == "arr" || rng.Args[0].K == "map")
+		}
+		if t != nil && t.K == "arr" {
+			return t.Sub.K == "arr" || t.Sub.K == "map"
+		}
+		return false
+	}
+	for _, a := range e.Args {
+		if hasCompositeVar(a) {
+			return true
+		}
+	}
+	return false
+}
+
 // hasEmptyRepeat: the expression contains  [] * e  (the untyped empty array repeated)
 func hasEmptyRepeat(e *pexpr) bool {
 	if e == nil {
@@ -650,8 +696,9 @@ func (e *pexpr) sx() string {
 
 // progBuilder collects the declarations an expression needs.
 type progBuilder struct {
-	pre  []string
-	nvar int
+	pre   []string
+	loops []string // headers of the for loops whose variables the expression uses (outermost first)
+	nvar  int
 }
 
 func zeroLit(t *sty) string {
@@ -710,6 +757,12 @@ func (pb *progBuilder) render(e *pexpr) string {
 		return "!" + pb.render(e.Args[0])
 	case "group":
 		return "(" + pb.render(e.Args[0]) + ")"
+	case "loopvar":
+		rng := pb.render(e.Args[0])
+		pb.nvar++
+		name := fmt.Sprintf("lv%d", pb.nvar)
+		pb.loops = append(pb.loops, "for "+name+" := range "+rng)
+		return name
 	case "index":
 		l := pb.render(e.Args[0])
 		return l + "[" + pb.render(e.Args[1]) + "]"
@@ -777,29 +830,63 @@ func (c pctx) sx() string {
 func c04Program(c pctx, e *pexpr) string {
 	pb := &progBuilder{}
 	src := pb.render(e)
-	var b []string
-	b = append(b, pb.pre...)
+	// head: declarations at top level; stmt: the statement under test and the typeof print,
+	// placed inside the for loops whose variables the value uses
+	var head, stmt []string
+	head = append(head, pb.pre...)
+	wrap := func(lines []string, indent string) []string {
+		if len(pb.loops) == 0 {
+			return lines
+		}
+		var out []string
+		ind := indent
+		for _, l := range pb.loops {
+			out = append(out, ind+l)
+			ind += "    "
+		}
+		for _, l := range lines {
+			out = append(out, ind+l)
+		}
+		for i := len(pb.loops) - 1; i >= 0; i-- {
+			ind = ind[:len(ind)-4]
+			out = append(out, ind+"end")
+		}
+		return out
+	}
 	switch c.K {
 	case "decl":
-		b = append(b, "x := "+src, "print (typeof x)")
+		stmt = append(stmt, "x := "+src, "print (typeof x)")
 	case "assign":
-		b = append(b, "t:"+c.T.src(), "t = "+src, "print (typeof t)")
+		head = append(head, "t:"+c.T.src())
+		stmt = append(stmt, "t = "+src, "print (typeof t)")
 	case "param":
-		b = append(b, "func fp p:"+c.T.src(), "    print (typeof p)", "end", "fp "+src)
+		head = append(head, "func fp p:"+c.T.src(), "    print (typeof p)", "end")
+		stmt = append(stmt, "fp "+src)
 	case "variadic":
-		b = append(b, "func fv p:"+c.T.src()+"...", "    print (typeof p[0])", "end", "fv "+src)
+		head = append(head, "func fv p:"+c.T.src()+"...", "    print (typeof p[0])", "end")
+		stmt = append(stmt, "fv "+src)
 	case "return":
-		b = append(b, "func fr:"+c.T.src(), "    return "+src, "end", "r := fr", "print (typeof r)")
+		if len(pb.loops) == 0 {
+			head = append(head, "func fr:"+c.T.src(), "    return "+src, "end")
+			stmt = append(stmt, "r := fr", "print (typeof r)")
+		} else {
+			// the loops go inside the function; typeof is not observed (the loop may not run)
+			head = append(head, "func fr:"+c.T.src())
+			head = append(head, wrap([]string{"return " + src}, "    ")...)
+			head = append(head, "    return "+zeroLit(c.T), "end")
+			return strings.Join(append(head, "r := fr", "print \"<evy run-time: not observed>\" r"), "\n") + "\n"
+		}
 	case "garr":
-		b = append(b, "print (join "+src+" \",\")")
+		stmt = append(stmt, "print (join "+src+" \",\")")
 	case "gmap":
-		b = append(b, "print (has "+src+" \"zz\")")
+		stmt = append(stmt, "print (has "+src+" \"zz\")")
 	case "cond":
-		b = append(b, "if "+src, "    print \"taken\"", "end")
+		stmt = append(stmt, "if "+src, "    print \"taken\"", "end")
 	case "range":
-		b = append(b, "for x := range "+src, "    print (typeof x)", "end")
+		stmt = append(stmt, "for x := range "+src, "    print (typeof x)", "end")
 	case "assigncall":
-		b = append(b, "func ft:"+c.T.src(), "    return "+zeroLit(c.T), "end", "ft = "+src)
+		head = append(head, "func ft:"+c.T.src(), "    return "+zeroLit(c.T), "end")
+		stmt = append(stmt, "ft = "+src)
 	case "target":
 		// index expressions of the chain are rendered after the value (their declarations just precede the statement)
 		pb2 := &progBuilder{nvar: pb.nvar + 100}
@@ -820,14 +907,14 @@ func c04Program(c pctx, e *pexpr) string {
 				chain += ".(" + st.T.src() + ")"
 			}
 		}
-		b = append(b, pb2.pre...)
-		b = append(b, "r:"+c.T.src())
+		head = append(head, pb2.pre...)
+		head = append(head, "r:"+c.T.src())
 		if c.T.Sub != nil {
-			b = append(b, "r = "+sampleLit(c.T))
+			head = append(head, "r = "+sampleLit(c.T))
 		}
-		b = append(b, chain+" = "+src, "print (typeof "+chain+")")
+		stmt = append(stmt, chain+" = "+src, "print (typeof "+chain+")")
 	}
-	return strings.Join(b, "\n") + "\n"
+	return strings.Join(append(head, wrap(stmt, "")...), "\n") + "\n"
 }
 
 // sampleLit: a constant literal assignable to a variable of type t in which
@@ -1086,7 +1173,7 @@ func c04DoCell(r *Result, model, spec *Model, cell c04Cell, exhaustiveKind strin
 	if mverdict == "accept" {
 		mtypeof = c04ExpectedTypeof(cell.Ctx, mv.L[1].S, mv.L[2].S)
 	}
-	unobservable := strings.HasPrefix(impl.Typeof, "<evy run-time") || (cell.Ctx.K == "range" && impl.Typeof == "<no output>")
+	unobservable := strings.HasPrefix(impl.Typeof, "<evy run-time") || (impl.Typeof == "<no output>" && (cell.Ctx.K == "range" || hasLoopVar(cell.Form.E)))
 	untracked := unobservable || (mverdict == "accept" && mtypeof == "any")
 	if impl.V != mverdict {
 		c04Violate(r, Violation{Kind: "correspondence", Key: "program-verdict-" + cell.Ctx.K,
@@ -1195,6 +1282,12 @@ func c04Programs(cfg Config, r *Result, model, spec *Model) {
 func c04Family(symptom, why, form string, e *pexpr, shown string) string {
 	if hasEmptyRepeat(e) {
 		return "repeat-empty-typed-by-right-operand"
+	}
+	if concatRightHidesVariable(e) && (symptom == "parse-panic" || symptom == "verdict" && why == "spec-reject-impl-accept") {
+		return "concat-ignores-inner-fixed-of-right-operand"
+	}
+	if symptom == "verdict" && why == "spec-reject-impl-accept" && strings.HasPrefix(form, "loopvar-basic:") {
+		return "literal-with-variable-treated-as-constant" // [lv], {k:lv} with a loop variable of basic type
 	}
 	if symptom == "typeof" && (strings.HasSuffix(shown, "[]") || strings.HasSuffix(shown, "{}")) {
 		return "untyped-empty-leaks-into-typeof"
@@ -1308,6 +1401,7 @@ func runC04(cfg Config, r *Result) {
 	c04Combine(cfg, r, model, spec)
 	c04Programs(cfg, r, model, spec)
 	c04Targets(cfg, r, model, spec)
+	c04LoopVars(cfg, r, model, spec)
 	r.Exhaustive = true
 	ks := make([]string, 0, len(c04Keys))
 	for k, n := range c04Keys {
@@ -1328,6 +1422,7 @@ func c04Corpus(r *Result, model, spec *Model) {
 		{"empty-repetition", "x := [] * 3\ny := x + 1\nprint y\n", "repeat-empty-typed-by-right-operand"},
 		{"concat-into-any-array", "a:[]any\na = [1] + [2]\nprint a\n", "wrapany-panic:convertible-nonliteral"},
 		{"concat-nested-empty-into-string-arrays", "t:[][]string\nt = [[]]+[[1]]\nprint t\n", "concat-left-biased-type"},
+		{"concat-right-operand-hides-variable", "nums := [1]\na:[][]any\na = [[1]] + [nums]\nprint a\n", "concat-ignores-inner-fixed-of-right-operand"},
 		{"call-result-into-any-array", "func f:[]num\n    return [1]\nend\na:[]any\na = f\nprint a\n", "wrapany-panic:convertible-nonliteral"},
 		{"slice-of-empty-declared", "x := [][:]\nprint x\n", "wrapany-panic:untyped-empty-nonliteral"},
 		{"typeof-group-slice-empty", "print (typeof ([][:]))\n", "group-infer-panic"},
@@ -1498,4 +1593,112 @@ func c04Targets(cfg Config, r *Result, model, spec *Model) {
 		cl = append(cl, fmt.Sprintf("%s %d", k, classes[k]))
 	}
 	r.Note("assignment targets: %d root types of depth <= %d x every chain of <= 3 steps over {[num] [string] [bool] .field [n:] [:] .(num), and variable indices for shallow roots} that is legal up to its last step (%s) x value forms (9 for a legal target, 2 otherwise) + a function name as target = %d programs, enumerated completely", len(roots), cfg.N(2, 3), strings.Join(cl, ", "), n)
+}
+
+// ---------------------------------------------------------------- loop variables
+
+func hasLoopVar(e *pexpr) bool {
+	if e == nil {
+		return false
+	}
+	if e.K == "loopvar" {
+		return true
+	}
+	for _, a := range e.Args {
+		if hasLoopVar(a) {
+			return true
+		}
+	}
+	return false
+}
+
+func eloop(rng *pexpr) *pexpr { return &pexpr{K: "loopvar", Args: []*pexpr{rng}} }
+
+// element type of a range over t (nil: not iterable)
+func rangeElem(t *sty) *sty {
+	switch t.K {
+	case "arr":
+		return t.Sub
+	case "map", "string":
+		return c04tStr
+	case "num":
+		return c04tNum
+	}
+	return nil
+}
+
+// c04LoopVars: the loop variable's type and its variable-ness, observed through the value-form contexts
+func c04LoopVars(cfg Config, r *Result, model, spec *Model) {
+	iterables := []*sty{c04tStr, c04tNum}
+	for _, t := range styClosed(cfg.N(2, 3)) {
+		if t.K == "arr" || t.K == "map" {
+			iterables = append(iterables, t)
+		}
+	}
+	anyTargets := func(el *sty) []*sty {
+		ts := []*sty{el, c04tAny, {K: "arr", Sub: c04tAny}, {K: "map", Sub: c04tAny},
+			{K: "arr", Sub: &sty{K: "arr", Sub: c04tAny}}, {K: "arr", Sub: &sty{K: "map", Sub: c04tAny}},
+			{K: "map", Sub: &sty{K: "arr", Sub: c04tAny}}, {K: "arr", Sub: el}, {K: "map", Sub: el}}
+		return ts
+	}
+	n := 0
+	for _, it := range iterables {
+		el := rangeElem(it)
+		class := "basic"
+		if el.K == "arr" || el.K == "map" {
+			class = "composite"
+		}
+		operands := []*pexpr{evar(it)}
+		if c := constLit(it); c != nil && it.K != "num" {
+			operands = append(operands, c)
+		}
+		for oi, op := range operands {
+			lv := func() *pexpr { return eloop(op) }
+			sibling := lit("s")
+			if el.K == "string" {
+				sibling = lit("n")
+			}
+			if el.K == "arr" || el.K == "map" {
+				sibling = otherLit(el)
+			}
+			forms := []valueForm{
+				{"loopvar-" + class + ":lv", lv(), true},
+				{"loopvar-" + class + ":[lv]", lit("arr", lv()), false},
+				{"loopvar-" + class + ":{k:lv}", lit("map", lv()), false},
+				{"loopvar-" + class + ":[lv sibling]", lit("arr", lv(), sibling), false},
+				{"loopvar-" + class + ":[sibling lv]", lit("arr", sibling, lv()), false},
+			}
+			if el.K == "arr" {
+				if c := constLit(el); c != nil {
+					forms = append(forms,
+						valueForm{"loopvar-" + class + ":lv+lit", ebin("+", lv(), c), false},
+						valueForm{"loopvar-" + class + ":lit+lv", ebin("+", c, lv()), false},
+						valueForm{"loopvar-" + class + ":[lit]+[lv]", ebin("+", lit("arr", c), lit("arr", lv())), false})
+				}
+			}
+			ctxs := []pctx{{K: "decl"}}
+			for ti, t := range anyTargets(el) {
+				ctxs = append(ctxs, pctx{K: "assign", T: t}, pctx{K: "param", T: t})
+				if ti < 4 && oi == 0 {
+					ctxs = append(ctxs, pctx{K: "variadic", T: t}, pctx{K: "return", T: t})
+				}
+			}
+			for _, c := range ctxs {
+				for _, f := range forms {
+					c04DoCell(r, model, spec, c04Cell{Ctx: c, Form: f}, "")
+					n++
+				}
+			}
+		}
+	}
+	// the same concatenation shape with an ordinary variable (unchanged-tree defect: inner Fixed flag of the right operand ignored)
+	for _, el := range []*sty{{K: "arr", Sub: c04tNum}, {K: "arr", Sub: c04tStr}, {K: "map", Sub: c04tNum}} {
+		c := constLit(el)
+		e := ebin("+", lit("arr", c), lit("arr", evar(el)))
+		for _, t := range []*sty{{K: "arr", Sub: &sty{K: el.K, Sub: c04tAny}}, {K: "arr", Sub: c04tAny}, {K: "arr", Sub: el}, c04tAny} {
+			c04DoCell(r, model, spec, c04Cell{Ctx: pctx{K: "assign", T: t}, Form: valueForm{"concat-literal-with-literal-of-variable", e, false}}, "")
+			n++
+		}
+	}
+	r.Note("loop variables: %d iterable types (string, num, every array and map type of depth <= %d), ranged over as a variable and as a constant literal; the loop variable used as lv, [lv], {k:lv}, [lv sibling], [sibling lv], lv+lit, lit+lv, [lit]+[lv] in decl and assign/param(/variadic/return) against the element type, any, []any, {}any, [][]any, []{}any, {}[]any, []elem, {}elem = %d programs, enumerated completely", len(iterables), cfg.N(2, 3), n)
 }
